@@ -9,6 +9,7 @@ import sys
 import traceback
 
 CHECKS = {
+    "C19": ("harness.checks.c19", "C19"),
     "C04": ("harness.checks.relayfam", "C04"),
     "C16": ("harness.checks.c16", "C16"),
     "C15": ("harness.checks.authfam", "C15"),
